@@ -218,8 +218,17 @@ def check(model, rep, tier):
     ok = len(asg) == 1 and core.norm(asg[0].value) == param and isinstance(
         tpl.expand(inst, asg[0].targets[0].value, asg[0], depth=1), ast.Call)
     if ok:
-      gd = [x for x in _c10._enclosing_withs(inst.node, asg[0]) if isinstance(x, tuple)]
-      ok = gd in ([], [('T', param)], [('T', '%s is not None' % param)])
+      # reached whenever the value was given: always, or exactly under a test
+      # of that parameter (earlier guard clauses included)
+      f_ = formula.condition_formula(inst.node, asg[0], lambda e: core.norm(e))
+      # (among the calls that do not fail one of the argument checks)
+      valid = formula.TRUE
+      for st_ in inst.node.body:
+        if isinstance(st_, ast.If) and not st_.orelse and st_.body and isinstance(
+            st_.body[-1], ast.Raise):
+          valid = valid & ~formula.bool_formula(st_.test, lambda e: core.norm(e))
+      ok = any(formula.equivalent(f_, w_, assume=valid)[0] for w_ in (
+          formula.TRUE, formula.atom(param), ~formula.atom('%s is None' % param)))
     rep.check(ok, 'IFACE-BIND', '%s:%s' % (inst.site, attr),
               '%s of the new function must be the very object passed in' % attr,
               {'assignments': [core.norm(a) for a in asg]}, line=inst.node.lineno,
